@@ -34,6 +34,10 @@ pub struct SetShape {
     /// an empty or over-long value in the same mutation while every other mutation stays valid
     #[serde(default)]
     pub focus: bool,
+    /// 0 = the sized slot is filled with 7s and comes first (the other slots are `[1]`); 1 = filled with 0s (it compares
+    /// *less* than its neighbours although it is longer); 2 = filled with 0s and placed last
+    #[serde(default)]
+    pub slot_shape: u8,
 }
 
 fn build_set(s: &SetShape) -> SolutionSet {
@@ -47,10 +51,13 @@ fn build_set(s: &SetShape) -> SolutionSet {
                 predicate: ContentAddress([i as u8; 32]),
             },
             predicate_data: if i == 0 {
-                let mut d = vec![vec![7; s.slot_words]];
+                let mut d = vec![vec![if s.slot_shape == 0 { 7 } else { 0 }; s.slot_words]];
                 d.resize(s.slots.max(if s.slots == 0 { 0 } else { 1 }), vec![1]);
                 if s.slots == 0 {
                     d.clear();
+                }
+                if s.slot_shape == 2 {
+                    d.reverse();
                 }
                 d
             } else {
@@ -69,7 +76,7 @@ fn build_set(s: &SetShape) -> SolutionSet {
             if kw == 0 {
                 key.clear();
             }
-            let value = if m == 0 { vec![3; s.value_words] } else { vec![1] };
+            let value = if m == 0 { vec![if s.slot_shape == 0 { 3 } else { 0 }; s.value_words] } else { vec![1] };
             sols[si].state_mutations.push(Mutation { key, value });
         }
         match s.dup {
@@ -145,6 +152,7 @@ fn set_items(_t: Tier) -> Box<dyn Iterator<Item = SetShape>> {
         value_words: 1,
         dup: 0,
         focus: false,
+        slot_shape: 0,
     };
     let mut v = Vec::new();
     // every limit alone and all pairwise combinations of two limits at {0,1,L-1,L,L+1}
@@ -168,8 +176,16 @@ fn set_items(_t: Tier) -> Box<dyn Iterator<Item = SetShape>> {
                     fj(&mut s2, b);
                     v.push(s2.clone());
                     if s2.mutations >= 2 && (s2.key_words != 1 || s2.value_words != 1) {
-                        s2.focus = true;
-                        v.push(s2);
+                        let mut s3 = s2.clone();
+                        s3.focus = true;
+                        v.push(s3);
+                    }
+                    if s2.slots >= 2 && s2.slot_words != 1 || s2.mutations >= 2 && s2.value_words > 1 {
+                        for shape in 1..3 {
+                            let mut s3 = s2.clone();
+                            s3.slot_shape = shape;
+                            v.push(s3);
+                        }
                     }
                 }
             }
@@ -201,7 +217,7 @@ fn set_items(_t: Tier) -> Box<dyn Iterator<Item = SetShape>> {
 
 fn set_random() -> impl Strategy<Value = SetShape> {
     let around = |l: usize| prop_oneof![2 => 0usize..4, 1 => Just(l - 1), 2 => Just(l), 1 => Just(l + 1), 1 => 0usize..=l + 2];
-    (around(100), around(100), around(10_000), around(1000), around(1000), around(10_000), 0u8..4, any::<bool>()).prop_map(|(solutions, slots, slot_words, mutations, key_words, value_words, dup, focus)| SetShape {
+    (around(100), around(100), around(10_000), around(1000), around(1000), around(10_000), 0u8..4, any::<bool>(), 0u8..3).prop_map(|(solutions, slots, slot_words, mutations, key_words, value_words, dup, focus, slot_shape)| SetShape {
         solutions,
         slots,
         slot_words,
@@ -210,6 +226,7 @@ fn set_random() -> impl Strategy<Value = SetShape> {
         value_words,
         dup,
         focus,
+        slot_shape,
     })
 }
 
